@@ -58,12 +58,19 @@ class Spec(core.PropSpec):
         ro = st("ops")
         level = ro.choice(["sampler", "sampler", "loader"])
         plan = dict(world=w, level=level, via=ro.choice(["sampler", "batch_sampler"]))
+        rc = st("company")
+        plan["company"] = T.gen_company(rc, w) if w["configs"] and rc.random() < 0.25 else None
+        plan["overlap"] = [[rc.randint(0, 12), rc.randint(1, 4)] for _ in range(rc.randint(1, 2))] if rc.random() < 0.2 else None
         if level == "loader":
             plan.update(K=ro.choice([0, 1, 2, 2, 3, 4]), prefetch=ro.choice([1, 2, 2, 3]), sched_seed=ro.getrandbits(32),
                         stall=ro.choice([None, None, 0, 1]), tagged=[ro.random() < 0.7 for _ in range(len(w["configs"]) + 1)])
         return plan
 
     def shrink_candidates(self, plan):
+        if plan.get("company"):
+            yield dict(plan, company=None)
+        if plan.get("overlap"):
+            yield dict(plan, overlap=None)
         yield from T.world_candidates(plan)
         yield from super().shrink_candidates(plan)
 
@@ -110,7 +117,11 @@ class Spec(core.PropSpec):
     def _sampler_level(self, plan, w, ref, site, out):
         cap = len(ref) + 50
         try:
-            hist, terminated = T.run_sampler(w, via=plan["via"], cap=cap)
+            hist, terminated = T.run_sampler(w, via=plan["via"], cap=cap, company=plan.get("company"), overlap=plan.get("overlap"))
+            if plan.get("company"):
+                out.count("fault:config_objects_shared_with_second_sampler")
+            if plan.get("overlap"):
+                out.count("fault:overlapping_iteration_of_same_object")
         except T.Rejected as e:
             out.rejected = True
             return
